@@ -28,6 +28,26 @@ impl Rec {
     }
 }
 
+/// yields `left` items of the inner iterator, then None once, then the rest: not fused
+struct Flaky<I> {
+    inner: I,
+    left: usize,
+    tripped: bool,
+}
+impl<I: Iterator> Iterator for Flaky<I> {
+    type Item = I::Item;
+    fn next(&mut self) -> Option<I::Item> {
+        if self.left == 0 && !self.tripped {
+            self.tripped = true;
+            return None;
+        }
+        if self.left > 0 {
+            self.left -= 1;
+        }
+        self.inner.next()
+    }
+}
+
 /// value ∘ value in all four operand forms
 macro_rules! forms4 {
     ($rec:expr, $name:expr, $a:expr, $b:expr, $op:tt) => {{
@@ -216,26 +236,50 @@ fn float_forms<T: Fl>(rec: &mut Rec, rng: &mut Rng) {
     rec.same("Decomposed * Decomposed vs concat (rot)", &c.rot, &p.rot);
     rec.same("Decomposed * Decomposed vs concat (disp)", &c.disp, &p.disp);
 
-    // Sum / Product equal the left folds, over values and over references
-    let n = rng.below(7) as usize;
+    // Sum / Product equal the left folds, over values and over references -- for every kind of
+    // iterator: exact size hint (slice), lower bound 0 (filter, skip_while, from_fn), and a
+    // non-fused iterator that yields None once and would then go on (a fold stops at the first
+    // None); lengths 0-6 mostly, sometimes up to 20, sometimes long (block sizes 8, 64, 256 +- 1).
+    let n = match rng.below(12) {
+        0..=7 => rng.below(7) as usize,
+        8 | 9 => 7 + rng.below(14) as usize,
+        _ => rng.pick(&[8usize, 9, 16, 17, 63, 64, 65, 100, 255, 256, 257, 300, 513, 600]),
+    };
+    let cut = if n > 0 { rng.below(n as u64 + 1) as usize } else { 0 };
+    macro_rules! iter_kinds {
+        ($name:expr, $T:ty, $xs:expr, $fold:expr, $meth:ident, $what:expr) => {{
+            let xs: &Vec<$T> = $xs;
+            let by_val: $T = xs.iter().cloned().$meth();
+            let by_ref: $T = xs.iter().$meth();
+            rec.same(concat!($name, " ", $what, " over values"), &$fold(xs.len()), &by_val);
+            rec.same(concat!($name, " ", $what, " over references"), &$fold(xs.len()), &by_ref);
+            let v: $T = xs.iter().cloned().filter(|_| true).$meth();
+            rec.same(concat!($name, " ", $what, " over values through filter (size hint 0..n)"), &$fold(xs.len()), &v);
+            let v: $T = xs.iter().filter(|_| true).$meth();
+            rec.same(concat!($name, " ", $what, " over references through filter (size hint 0..n)"), &$fold(xs.len()), &v);
+            let v: $T = xs.iter().skip_while(|_| false).$meth();
+            rec.same(concat!($name, " ", $what, " over references through skip_while"), &$fold(xs.len()), &v);
+            let mut i = 0usize;
+            let v: $T = std::iter::from_fn(|| { let r = xs.get(i).cloned(); i += 1; r }).$meth();
+            rec.same(concat!($name, " ", $what, " over values from from_fn (size hint 0..)"), &$fold(xs.len()), &v);
+            let v: $T = Flaky { inner: xs.iter().cloned(), left: cut, tripped: false }.$meth();
+            rec.same(concat!($name, " ", $what, " over values of a non-fused iterator stops at the first None"), &$fold(cut), &v);
+            let v: $T = Flaky { inner: xs.iter(), left: cut, tripped: false }.$meth();
+            rec.same(concat!($name, " ", $what, " over references of a non-fused iterator stops at the first None"), &$fold(cut), &v);
+        }};
+    }
     macro_rules! sums {
         ($name:expr, $T:ty, $mk:expr) => {{
             let xs: Vec<$T> = (0..n).map(|_| $mk).collect();
-            let fold = xs.iter().fold(<$T>::zero(), |acc, x| acc + *x);
-            let by_val: $T = xs.iter().cloned().sum();
-            let by_ref: $T = xs.iter().sum();
-            rec.same(concat!($name, " Sum over values"), &fold, &by_val);
-            rec.same(concat!($name, " Sum over references"), &fold, &by_ref);
+            let fold = |k: usize| xs[..k].iter().fold(<$T>::zero(), |acc, x| acc + *x);
+            iter_kinds!($name, $T, &xs, fold, sum, "Sum");
         }};
     }
     macro_rules! prods {
         ($name:expr, $T:ty, $mk:expr) => {{
             let xs: Vec<$T> = (0..n).map(|_| $mk).collect();
-            let fold = xs.iter().fold(<$T>::one(), |acc, x| acc * *x);
-            let by_val: $T = xs.iter().cloned().product();
-            let by_ref: $T = xs.iter().product();
-            rec.same(concat!($name, " Product over values"), &fold, &by_val);
-            rec.same(concat!($name, " Product over references"), &fold, &by_ref);
+            let fold = |k: usize| xs[..k].iter().fold(<$T>::one(), |acc, x| acc * *x);
+            iter_kinds!($name, $T, &xs, fold, product, "Product");
         }};
     }
     sums!("Vector1", Vector1<T>, Vector1::new(T::r(rng)));
@@ -248,10 +292,13 @@ fn float_forms<T: Fl>(rec: &mut Rec, rng: &mut Rng) {
     sums!("Quaternion", Quaternion<T>, Quaternion::new(T::r(rng), T::r(rng), T::r(rng), T::r(rng)));
     sums!("Rad", Rad<T>, Rad(T::r(rng)));
     sums!("Deg", Deg<T>, Deg(T::r(rng)));
-    prods!("Matrix2", Matrix2<T>, Matrix2::new(T::r(rng), T::r(rng), T::r(rng), T::r(rng)));
-    prods!("Matrix3", Matrix3<T>, Matrix3::from_value(T::r(rng)) + Matrix3::from_cols(a3, b3, a3) * T::r(rng));
-    prods!("Matrix4", Matrix4<T>, Matrix4::from_value(T::r(rng)) + Matrix4::from_cols(a4, b4, a4, b4) * T::r(rng));
-    prods!("Quaternion", Quaternion<T>, Quaternion::new(T::r(rng), T::r(rng), T::r(rng), T::r(rng)));
+    // factors of modest size, so that long products stay finite (a NaN would still compare equal
+    // bit for bit, but says nothing)
+    let sm = T::from(if n > 20 { 0.03 } else { 1.0 }).unwrap();
+    prods!("Matrix2", Matrix2<T>, Matrix2::new(T::r(rng), T::r(rng), T::r(rng), T::r(rng)) * sm);
+    prods!("Matrix3", Matrix3<T>, (Matrix3::from_value(T::r(rng)) + Matrix3::from_cols(a3, b3, a3) * T::r(rng)) * sm);
+    prods!("Matrix4", Matrix4<T>, (Matrix4::from_value(T::r(rng)) + Matrix4::from_cols(a4, b4, a4, b4) * T::r(rng)) * sm * sm);
+    prods!("Quaternion", Quaternion<T>, Quaternion::new(T::r(rng), T::r(rng), T::r(rng), T::r(rng)) * (sm + sm + sm));
     // proper rotations commute in 2-D; mirrored bases (look_at_stable with flip) do not
     prods!("Basis2", Basis2<T>, if rng.bool() {
         Basis2::from_angle(Rad(T::r(rng)))
@@ -290,6 +337,10 @@ macro_rules! int_forms {
             let by_ref: Vector3<$T> = xs.iter().sum();
             $rec.same("Vector3<int> Sum over values", &fold, &by_val);
             $rec.same("Vector3<int> Sum over references", &fold, &by_ref);
+            let v: Vector3<$T> = xs.iter().cloned().filter(|_| true).sum();
+            $rec.same("Vector3<int> Sum over values through filter", &fold, &v);
+            let v: Vector3<$T> = xs.iter().filter(|_| true).sum();
+            $rec.same("Vector3<int> Sum over references through filter", &fold, &v);
         }
     )*};
 }
@@ -542,7 +593,7 @@ pub fn clauses() -> Vec<Clause> {
     vec![]
 }
 
-pub const RULE: &str = "each case draws fresh random operands (floats uniform in [-8,8], divisors bounded away from 0; integers 1..10 with the left operand shifted up so unsigned subtraction cannot underflow) and evaluates every operator of every compound type in all spellings that exist, the scalar-on-the-left forms for the 12 primitives, Sum/Product over 0-6 elements by value and by reference, and two random straight-line programs of 8-20 instructions in two spellings; evaluations = number of bitwise comparisons; distinct_nontrivial = number of distinct operand sets (all are non-trivial: components are independent random values).";
+pub const RULE: &str = "each case draws fresh random operands (floats uniform in [-8,8], divisors bounded away from 0; integers 1..10 with the left operand shifted up so unsigned subtraction cannot underflow) and evaluates every operator of every compound type in all spellings that exist, the scalar-on-the-left forms for the 12 primitives, Sum/Product by value and by reference over 0-6 (two cases in three), 7-20 or 8..600 elements (block sizes 8, 64, 256 +- 1) and over five kinds of iterator (slice, filter, skip_while, from_fn, a non-fused iterator with a None in the middle), and two random straight-line programs of 8-20 instructions in two spellings; evaluations = number of bitwise comparisons; distinct_nontrivial = number of distinct operand sets (all are non-trivial: components are independent random values).";
 pub const ASSUME: &[&str] = &[
     "identical means bitwise identical components (to_bits for floats)",
     "operands are chosen so that no overflow, underflow of unsigned types or division by zero occurs; overflow-checks are on, so such an event inside cgmath would be reported as an unexpected panic",
